@@ -3,6 +3,19 @@
 use crate::verif_env::{block_on, env, rs_stub};
 use nix::st as nix_st;
 
+/// stands in for `hooks::call(fm, &fm.hooks, &hook_data, <type>).await?` in write_file
+pub fn hook_event(hook_type: u8) -> Result<(), Error> {
+    let e = env();
+    kani::assume(e.hook_ev_n < 6);
+    e.hook_ev[e.hook_ev_n] = hook_type + 1;
+    e.hook_ev_n += 1;
+    if kani::any() {
+        e.hook_failed = true;
+        return Err("hook failed".into());
+    }
+    Ok(())
+}
+
 fn mk_fm(pk_mode: u32, crt_mode: u32) -> FileManager {
     FileManager {
         account_name: String::new(),
